@@ -90,6 +90,17 @@ func genSession(r *rand.Rand, i int) J {
 		g.budget = 10 + r.Intn(15)
 		templates = append(templates, g.seq(3, 5))
 	}
+	// near twins of the session's own templates (white space / letter case inside literals and texts changed): parsed
+	// and rendered on the same engine, each must give its own result
+	for _, t := range append([]any{}, templates...) {
+		if r.Intn(2) == 0 {
+			if tw := nearTwin(J{"prog": t}, r); tw != nil {
+				if _, err := newPrinter(spellFromJSON(nil)).Template(jarr(tw, "prog")); err == nil {
+					templates = append(templates, tw["prog"])
+				}
+			}
+		}
+	}
 	ill := illFormedTemplates()
 	templates = append(templates, ill[r.Intn(len(ill))])
 	nops := 2 + r.Intn(10)
@@ -159,7 +170,7 @@ func genMapSession(r *rand.Rand, i int) J {
 // sessions whose bindings are strings only, so the command-line tool can take part
 // text that a careless output path would mangle: format verbs, escapes, shell and terminal specials, long lines
 var cliTexts = []string{"50% off %d %s %v %%", "100%", "a\\nb\\t\\x41", "$HOME ${X} `id` $(id)", "-n -e --help", "\r\n\r\n", "\ttab\there", "é😀 \u00a0", "'single' \"double\"",
-	"<&>", "\x1b[31mred\x1b[0m", "%", "%%", "% d", "%!s(MISSING)", "{ } { %", "~!@#^&*()=+[]|;:,.?/"}
+	"<&>", "a=b=c", "=lead", "\x1b[31mred\x1b[0m", "%", "%%", "% d", "%!s(MISSING)", "{ } { %", "~!@#^&*()=+[]|;:,.?/"}
 
 func genCLISession(r *rand.Rand, i int) J {
 	env := []any{[]any{bs("S"), vStr(pick(r, append([]string{"a", "x y", "é", ""}, cliTexts...)))}, []any{bs("T"), vStr(pick(r, append([]string{"b", "10", " p "}, cliTexts...)))}}
@@ -172,6 +183,7 @@ func genCLISession(r *rand.Rand, i int) J {
 		[]any{nObj(eFilter(eVar("T"), "url_encode")), nText("|"), nObj(eFilter(eVar("S"), "escape")), nText("|"), nObj(eFilter(eVar("S"), "append", eVar("T")))},
 		[]any{nText(long), nObj(eVar("T"))},
 		[]any{J{"t": "raw", "s": bs(pick(r, cliTexts))}, nText(pick(r, cliTexts))},
+		[]any{nText("["), nObj(eVar("nosuchvariable")), nText("]")},
 	}
 	ops := []any{}
 	for k := 0; k < 2*len(templates)+2; k++ {
@@ -181,7 +193,11 @@ func genCLISession(r *rand.Rand, i int) J {
 		}
 		ops = append(ops, J{"t": k % len(templates), "b": 0, "entry": e})
 	}
-	return J{"kind": "session", "templates": templates, "envs": []any{env}, "ops": ops, "cli": true}
+	c := J{"kind": "session", "templates": templates, "envs": []any{env}, "ops": ops, "cli": true}
+	if i%3 == 0 {
+		c["strict"] = true // (--strict on the command line, StrictVariables on the engine)
+	}
+	return c
 }
 
 func init() {
